@@ -40,6 +40,14 @@ func callNames(c *ssa.CallCommon) []string {
 		for _, n := range funcNames(f) {
 			add(n)
 		}
+		// method on a struct field: also selectable as "<name>@<field>"
+		if f.Signature.Recv() != nil && len(c.Args) > 0 {
+			if fa, ok := c.Args[0].(*ssa.FieldAddr); ok {
+				st := fa.X.Type().Underlying().(*types.Pointer).Elem().Underlying().(*types.Struct)
+				ns := funcNames(f)
+				add(ns[0] + "@" + st.Field(fa.Field).Name())
+			}
+		}
 		return out
 	}
 	// dynamic call through a value
@@ -126,14 +134,14 @@ func funcNames(f *ssa.Function) []string {
 			rt = p.Elem()
 			ptr = true
 		}
-		tn := typeShort(rt) // pkg.T
+		tn := typeShort(rt) // pkg.T or pkg.T[args]
+		// strip type arguments first (they contain dots and brackets)
+		if i := strings.Index(tn, "["); i >= 0 {
+			tn = tn[:i]
+		}
 		bare := tn
 		if i := strings.LastIndex(tn, "."); i >= 0 {
 			bare = tn[i+1:]
-		}
-		// strip type arguments
-		if i := strings.Index(bare, "["); i >= 0 {
-			bare = bare[:i]
 		}
 		if ptr {
 			out = append(out, "(*"+bare+")."+f.Name(), pkg+".(*"+bare+")."+f.Name(), pkgPath+".(*"+bare+")."+f.Name())
